@@ -164,7 +164,7 @@ Record Inv (n : nat) (st : sstate) : Prop := {
                       end;
   inv_fw : forall i u todo, s_pc st i = Forwarding u todo ->
              (exists T, s_taken st i = T ++ [u]) /\ NoDup todo /\ (forall j, In j todo -> j <> i /\ j < n);
-  inv_out : forall i j, from i (s_out st j) = expected n st i j;
+  inv_out : forall i j, s_pc st j <> Closed -> from i (s_out st j) = expected n st i j;
   inv_outlen : forall j, Forall (fun p => len32 (snd p)) (s_out st j) }.
 
 Lemma inv_init n : Inv n init.
@@ -179,6 +179,15 @@ Qed.
 
 Ltac upd_cases i k :=
   destruct (Nat.eq_dec k i) as [->|?]; [rewrite ?upd_same | rewrite ?upd_other by assumption].
+
+Lemma live_peers_In n pcs i j : In j (live_peers n pcs i) <-> (j <> i /\ j < n) /\ pcs j <> Closed.
+Proof.
+  unfold live_peers. rewrite filter_In, peers_In, negb_true_iff. split; intros [H1 H2]; (split; [exact H1|]).
+  - intros C. rewrite C in H2. discriminate.
+  - destruct (pcs j); try reflexivity. congruence.
+Qed.
+Lemma live_peers_NoDup n pcs i : NoDup (live_peers n pcs i).
+Proof. apply NoDup_filter, peers_NoDup. Qed.
 
 Lemma inv_step n st l : Inv n st -> Inv n (step n st l).
 Proof.
@@ -204,13 +213,18 @@ Proof.
            rewrite Epc in Harr. rewrite Harr, concat_app. simpl. rewrite app_nil_r, <- app_assoc, firstn_skipn.
            reflexivity.
         -- intros k u' todo'. upd_cases i k; [|apply Hfw]. intros H. inversion H; subst.
-           split; [eexists; reflexivity|]. split; [apply peers_NoDup|]. intros j Hj. apply peers_In. exact Hj.
-        -- intros k j. rewrite Hout. unfold expected. simpl.
+           split; [eexists; reflexivity|]. split; [apply live_peers_NoDup|]. intros j Hj.
+           apply live_peers_In in Hj. tauto.
+        -- intros k j Hj.
+           assert (Hj' : s_pc st j <> Closed).
+           { destruct (Nat.eq_dec j i) as [->|Hji]; [congruence|]. rewrite upd_other in Hj by assumption. exact Hj. }
+           rewrite (Hout k j Hj'). unfold expected. simpl.
            destruct (Nat.eqb j k || negb (j <? n)) eqn:Ec; [reflexivity|].
            upd_cases i k; [|reflexivity]. rewrite Epc.
            apply orb_false_iff in Ec. destruct Ec as [E1 E2]. apply Nat.eqb_neq in E1.
            apply negb_false_iff, Nat.ltb_lt in E2.
-           assert (M : mem_nat j (peers n i) = true) by (apply mem_nat_In, peers_In; split; assumption).
+           assert (M : mem_nat j (live_peers n (s_pc st) i) = true).
+           { apply mem_nat_In, live_peers_In. repeat split; assumption. }
            rewrite M, removelast_last. reflexivity.
         -- exact Holen.
       * destruct (s_eof st i) eqn:Eeof; [|constructor; assumption].
@@ -218,7 +232,10 @@ Proof.
         -- intros k. specialize (Harr k). upd_cases i k; [|exact Harr].
            rewrite Epc in Harr. split; [assumption|]. exists (s_buf st i). split; assumption.
         -- intros k u' todo'. upd_cases i k; [discriminate | apply Hfw].
-        -- intros k j. rewrite Hout. unfold expected. simpl.
+        -- intros k j Hj.
+           assert (Hj' : s_pc st j <> Closed).
+           { destruct (Nat.eq_dec j i) as [->|Hji]; [congruence|]. rewrite upd_other in Hj by assumption. exact Hj. }
+           rewrite (Hout k j Hj'). unfold expected. simpl.
            destruct (Nat.eqb j k || negb (j <? n)); [reflexivity|].
            upd_cases i k; [rewrite Epc|]; reflexivity.
     + (* Forwarding *)
@@ -227,7 +244,10 @@ Proof.
       * constructor; simpl; try assumption.
         -- intros k. specialize (Harr k). upd_cases i k; [|exact Harr]. rewrite Epc in Harr. exact Harr.
         -- intros k u' todo'. upd_cases i k; [discriminate | apply Hfw].
-        -- intros k j. rewrite Hout. unfold expected. simpl.
+        -- intros k j Hj.
+           assert (Hj' : s_pc st j <> Closed).
+           { destruct (Nat.eq_dec j i) as [->|Hji]; [congruence|]. rewrite upd_other in Hj by assumption. exact Hj. }
+           rewrite (Hout k j Hj'). unfold expected. simpl.
            destruct (Nat.eqb j k || negb (j <? n)); [reflexivity|].
            upd_cases i k; [rewrite Epc|]; reflexivity.
       * inversion ND as [|? ? Hnotin ND']; subst.
@@ -236,15 +256,18 @@ Proof.
         -- intros k. specialize (Harr k). upd_cases i k; [|exact Harr]. rewrite Epc in Harr. exact Harr.
         -- intros k u' todo'. upd_cases i k; [|apply Hfw]. intros H. inversion H; subst.
            split; [exists T; assumption|]. split; [assumption|]. intros j' Hj'. apply Hin. right; assumption.
-        -- intros k j'. unfold expected. simpl. upd_cases j j'.
-           ++ rewrite from_app, Hout. unfold expected.
+        -- intros k j' Hc.
+           assert (Hc' : s_pc st j' <> Closed).
+           { destruct (Nat.eq_dec j' i) as [->|Hji']; [congruence|]. rewrite upd_other in Hc by assumption. exact Hc. }
+           unfold expected. simpl. upd_cases j j'.
+           ++ rewrite from_app, (Hout k j Hc'). unfold expected.
               destruct (Nat.eq_dec k i) as [->|Hki].
               ** rewrite upd_same, from_one_same, Epc.
                  apply Nat.eqb_neq in Hji. rewrite Hji. simpl.
                  apply Nat.ltb_lt in Hjn. rewrite Hjn. simpl. rewrite Nat.eqb_refl. simpl.
                  apply mem_nat_false in Hnotin. rewrite Hnotin, ET, removelast_last. reflexivity.
               ** rewrite upd_other by assumption. rewrite from_one_other by congruence. apply app_nil_r.
-           ++ rewrite Hout. unfold expected.
+           ++ rewrite (Hout k j' Hc'). unfold expected.
               destruct (Nat.eqb j' k || negb (j' <? n)); [reflexivity|].
               upd_cases i k; [|reflexivity]. rewrite Epc. simpl.
               assert (Nat.eqb j' j = false) by (apply Nat.eqb_neq; assumption).
@@ -310,10 +333,10 @@ Proof.
 Qed.
 
 Lemma quiescent_out n st i j :
-  Inv n st -> quiescent st -> j < n ->
+  Inv n st -> quiescent st -> j < n -> s_pc st j <> Closed ->
   from i (s_out st j) = if Nat.eqb i j then [] else s_taken st i.
 Proof.
-  intros I Q Hj. rewrite (inv_out n st I). unfold expected. destruct (Q i) as [Q1 _].
+  intros I Q Hj Hc. rewrite (inv_out n st I) by assumption. unfold expected. destruct (Q i) as [Q1 _].
   apply Nat.ltb_lt in Hj. rewrite Hj. simpl. rewrite orb_false_r, (Nat.eqb_sym j i).
   destruct (Nat.eqb i j); [reflexivity|]. destruct (s_pc st i); try reflexivity. discriminate.
 Qed.
@@ -326,17 +349,18 @@ Lemma notify_exact n (ann : nat -> list bytes) ls st :
   st = run n init ls ->
   (forall i, exists p, s_arr st i = concat (ann i) ++ p /\ length p < IDLEN) ->
   quiescent st ->
-  forall j, j < n -> forall cchunks, concat cchunks = concat (map snd (s_out st j)) ->
+  forall j, j < n -> s_pc st j <> Closed ->
+  forall cchunks, concat cchunks = concat (map snd (s_out st j)) ->
   exists tagged, map snd tagged = fst (client_run [] cchunks) /\ snd (client_run [] cchunks) = [] /\
                  Interleaving (others ann j) tagged.
 Proof.
-  intros F -> A Q j Hj cchunks E.
+  intros F -> A Q j Hj Hc cchunks E.
   assert (I : Inv n (run n init ls)) by (apply inv_run, inv_init).
   exists (s_out (run n init ls) j).
   assert (Fo : Forall len32 (map snd (s_out (run n init ls) j))).
   { pose proof (inv_outlen n _ I j) as H. rewrite Forall_map. exact H. }
   rewrite (client_exact cchunks (map snd (s_out (run n init ls) j)) []); simpl.
-  - split; [reflexivity|]. split; [reflexivity|]. intros i. rewrite (quiescent_out n _ i j I Q Hj).
+  - split; [reflexivity|]. split; [reflexivity|]. intros i. rewrite (quiescent_out n _ i j I Q Hj Hc).
     unfold others. destruct (Nat.eqb i j); [reflexivity|].
     destruct (A i) as [p [Ep Lp]]. eapply quiescent_taken; eauto.
   - exact Fo.
@@ -389,10 +413,10 @@ Proof.
 Qed.
 
 Lemma out_prefix n st i j ids :
-  Inv n st -> (exists k, s_taken st i = firstn k ids) ->
+  Inv n st -> s_pc st j <> Closed -> (exists k, s_taken st i = firstn k ids) ->
   exists k, from i (s_out st j) = firstn k ids.
 Proof.
-  intros I [k Hk]. rewrite (inv_out n st I). unfold expected.
+  intros I Hc [k Hk]. rewrite (inv_out n st I) by assumption. unfold expected.
   destruct (Nat.eqb j i || negb (j <? n)); [exists 0; reflexivity|].
   destruct (s_pc st i); try (exists k; assumption).
   destruct (mem_nat j todo); [|exists k; assumption]. rewrite Hk. apply removelast_firstn_ex.
@@ -402,11 +426,12 @@ Lemma notify_safe n (ann : nat -> list bytes) ls st j cchunks m :
   (forall i, Forall len32 (ann i)) ->
   st = run n init ls ->
   (forall i, exists mi, s_arr st i = firstn mi (concat (ann i))) ->
+  s_pc st j <> Closed ->
   concat cchunks = firstn m (concat (map snd (s_out st j))) ->
   exists tagged, map snd tagged = fst (client_run [] cchunks) /\
     from j tagged = [] /\ forall i, exists k, from i tagged = firstn k (ann i).
 Proof.
-  intros F -> A E.
+  intros F -> A Hcl E.
   assert (I : Inv n (run n init ls)) by (apply inv_run, inv_init).
   set (st := run n init ls) in *.
   assert (Fo : Forall len32 (map snd (s_out st j))) by (rewrite Forall_map; apply (inv_outlen n st I)).
@@ -416,10 +441,10 @@ Proof.
   { rewrite Forall_forall in *. intros x Hx. apply Fo. eapply firstn_In'; eassumption. }
   rewrite (client_exact cchunks (firstn k (map snd (s_out st j))) p Fk Lp) by (rewrite E; exact Ek).
   simpl. split; [symmetry; apply firstn_map|]. split.
-  - destruct (from_firstn_ex j (s_out st j) k) as [c Hc]. rewrite Hc, (inv_out n st I). unfold expected.
+  - destruct (from_firstn_ex j (s_out st j) k) as [c Hc]. rewrite Hc, (inv_out n st I) by assumption. unfold expected.
     rewrite Nat.eqb_refl. simpl. apply firstn_nil.
   - intros i. destruct (A i) as [mi Hmi].
-    destruct (out_prefix n st i j (ann i) I (taken_prefix n st i (ann i) mi I (F i) Hmi)) as [k2 Hk2].
+    destruct (out_prefix n st i j (ann i) I Hcl (taken_prefix n st i (ann i) mi I (F i) Hmi)) as [k2 Hk2].
     destruct (from_firstn_ex i (s_out st j) k) as [c Hc]. rewrite Hc, Hk2. apply firstn_firstn_ex.
 Qed.
 
